@@ -176,10 +176,13 @@ def write_item(e):
             return
         if x.op != "const":
             yield x
+    enum_fields = set()
     for a in atoms_of(e.e):
         e.env.atoms[a.key()] = a
         cls = classify_atom(a.key(), e.env)
         his[cls[:2]] = e.env.interval(a)[1]
+        if a.key().startswith("int(") and len(cls) > 1:
+            enum_fields.add(cls[1])
     bits = sym.bits_of(e.e, e.env, n * 8)
     out = []
     for b in bits:
@@ -192,7 +195,7 @@ def write_item(e):
         else:
             key, j = b
             out.append(classify_atom(key, e.env) + (j,))
-    return {"k": "chunk", "n": n, "order": e.order, "bits": out, "line": e.line, "api": e.api, "his": his}
+    return {"k": "chunk", "n": n, "order": e.order, "bits": out, "line": e.line, "api": e.api, "his": his, "enum_fields": enum_fields}
 
 
 def item_bytes(g, env):
@@ -253,3 +256,318 @@ def ref_chunk_bits(it, side="enc"):
             elif k == "flag":
                 bits[pos] = ("flag", bf["name"], tuple(bf["opt"]), j)
     return bits
+
+
+# ------------------------------------------------------------------------------------ decoder
+def _has_sym(e, prefix):
+    if e.op == "sym":
+        nm = e.args[0]
+        if prefix == "len#":
+            return nm.startswith("len#") or nm.startswith("len(parent.") or nm.startswith("chunklen#")
+        return nm.startswith(prefix)
+    return any(_has_sym(a, prefix) for a in e.args if isinstance(a, E))
+
+
+def _strip_cast(e):
+    while e.op == "cast":
+        e = e.args[0]
+    return e
+
+
+def _err_variant(v):
+    """DecodeError variant produced by a `return Err(..)` value / a mapped error"""
+    if isinstance(v, ResV) and v.err:
+        x = v.err.get("value") or v.err.get("mapped")
+        if isinstance(x, ErrV):
+            return x.variant
+        p = getattr(x, "path", None)
+        if isinstance(p, str) and "Error::" in p:
+            return p.split("::")[-1]
+    if isinstance(v, ErrV):
+        return v.variant
+    return None
+
+
+class DecoderLayout:
+    """Items read by an evaluated decode / decode_partial, in wire order."""
+
+    def __init__(self, ev):
+        self.ev = ev
+        self.env = ev.env
+        self.items = []
+        self.chunks = {}        # rd key -> chunk item
+        self.roles = {}         # E key (cast stripped) -> role tuple
+        self.var = {}           # name -> E
+        self.checks = []        # (variant, cond, event)
+        self.problems = []
+        self.result_fields = {}
+        self.always_fails = None
+        self.return_errors = []
+        from .rseval import IfV
+        cands = []
+        for val, env in ev.returns:
+            if isinstance(val, IfV):
+                cands += [val.a, val.b]
+            else:
+                cands.append(val)
+        for val in cands:
+            ok = val.ok if isinstance(val, ResV) else None
+            if isinstance(ok, TupV) and ok.items and isinstance(ok.items[0], ObjV):
+                self.result_fields = {k.replace("r#", ""): v for k, v in ok.items[0].fields.items()}
+            elif isinstance(ok, ObjV):
+                self.result_fields = {k.replace("r#", ""): v for k, v in ok.fields.items()}
+            elif isinstance(val, ResV) and ok is None:
+                v = _err_variant(val)
+                if v:
+                    self.return_errors.append(v)
+        self.scan(ev.events, None)
+        self.finish()
+
+    # -- helpers
+    def role(self, e, r):
+        self.roles[_strip_cast(e).key()] = r
+        self.roles[e.key()] = r
+
+    def classify_count(self, cnt, name, pre_rem=None):
+        """shape of an array from its iteration count expression"""
+        c = _strip_cast(cnt)
+        if cnt.is_const():
+            return {"k": "static", "n": cnt.cval()}
+        rems = {r.key() for r in (pre_rem or {}).values()}
+        if cnt.key() in rems or c.key() in rems:
+            return {"k": "rest", "elem_bytes": 1}
+        if c.op == "div" and c.args[1].is_const() and c.args[0].key() in rems:
+            return {"k": "rest", "elem_bytes": c.args[1].cval()}
+        if c.op == "div" and c.args[1].is_const():
+            v = c.args[0]
+            if _has_sym(v, "len#") and not _has_sym(v, "rd#"):
+                return {"k": "rest", "elem_bytes": c.args[1].cval()}
+            self.role(v, ("size", name, 0))
+            return {"k": "size", "f": name, "elem_bytes": c.args[1].cval(), "v": v}
+        if _has_sym(cnt, "len#") and not _has_sym(cnt, "rd#"):
+            return {"k": "rest", "elem_bytes": 1}
+        if _has_sym(cnt, "rd#"):
+            # either a count field, or (1-byte elements) a size field used directly as count
+            self.role(cnt, ("count|size1", name, 0))
+            return {"k": "count", "f": name, "v": cnt}
+        return {"k": "unknown", "expr": cnt.key()}
+
+    def elem_of(self, body):
+        """element description from a loop body"""
+        reads = [x for x in body if x.kind == "read"]
+        convs = [x for x in body if x.kind == "enum_conv"]
+        nested = [x for x in body if x.kind == "nested"]
+        if nested and not reads:
+            return {"k": "struct", "type": nested[0].ty}
+        if len(reads) == 1:
+            r = reads[0]
+            if convs:
+                return {"k": "enum", "type": convs[0].ty, "w": r.nbytes * 8, "order": r.order}
+            return {"k": "scalar", "w": r.nbytes * 8, "order": r.order}
+        return {"k": "unknown"}
+
+    # -- scan
+    def scan(self, events, pad):
+        evs = list(events)
+        i = 0
+        pending_pad = pad
+        head_spans = {}
+        while i < len(evs):
+            e = evs[i]
+            k = e.kind
+            nxt_binds = [x for x in evs[i + 1:i + 6] if x.kind == "bind"]
+            prev_binds = [x for x in evs[max(0, i - 4):i] if x.kind == "bind"]
+            if k == "read":
+                it = {"k": "chunk", "n": e.nbytes, "order": e.order, "sym": e.sym, "line": e.line, "uses": []}
+                self.chunks[e.sym.key()] = it
+                self.items.append(it)
+            elif k == "bind":
+                v = e.val
+                e.name = e.name.replace("r#", "")
+                if isinstance(v, IntV):
+                    self.var[e.name] = v.e
+                    self.use(e.name, v.e)
+                elif isinstance(v, ObjV) and v.src is not None and isinstance(v.src, E):
+                    self.use(e.name, v.src, kind="enum" if v.ty not in ("?custom",) else "custom", ty=v.ty)
+            elif k == "check":
+                var = _err_variant(e.ret) if e.ret is not None else None
+                self.checks.append((var, e.cond, e))
+                if getattr(e, "always", False):
+                    self.always_fails = (var, e.line)
+                c = e.cond
+                if var == "FixedValueError" and c.op == "ne" and isinstance(c.args[0], E) and isinstance(c.args[1], E):
+                    a, b = c.args
+                    if a.is_const():
+                        a, b = b, a
+                    if b.is_const():
+                        self.use("fixed", a, kind="fixed", value=b.cval())
+                    else:
+                        self.use("fixed", a, kind="fixed", value=None, expr=b)
+            elif k == "split":
+                n = e.n
+                if n.is_const():
+                    pending_pad = n.cval()
+                    head_spans[e.head] = ("pad", n.cval())
+                else:
+                    head_spans[e.head] = ("sized", n)
+            elif k == "loop":
+                name = self.array_name(prev_binds, nxt_binds)
+                shape = self.classify_count(e.count, name, getattr(e, "pre_rem", None))
+                it = {"k": "array", "name": name, "elem": self.elem_of(list(walk(e.body))), "shape": shape,
+                      "pad": pending_pad, "line": e.line}
+                pending_pad = None
+                self.items.append(it)
+            elif k == "while_nonempty":
+                name = self.array_name(prev_binds, nxt_binds)
+                hs = head_spans.get(e.span)
+                if hs and hs[0] == "sized":
+                    self.role(hs[1], ("size", name, 0))
+                    shape = {"k": "size", "f": name, "v": hs[1], "elem_bytes": None}
+                    padv = pending_pad
+                elif hs and hs[0] == "pad":
+                    shape = {"k": "rest", "elem_bytes": None}
+                    padv = hs[1]
+                else:
+                    shape = {"k": "rest", "elem_bytes": None}
+                    padv = pending_pad
+                it = {"k": "array", "name": name, "elem": self.elem_of(list(walk(e.body))), "shape": shape, "pad": padv,
+                      "line": e.line}
+                pending_pad = None
+                self.items.append(it)
+            elif k == "chunks":
+                name = self.array_name(prev_binds, nxt_binds)
+                self.role(e.size, ("elemsize", name, 0))
+                take = e.take
+                if take is None:
+                    shape = {"k": "unknown"}
+                else:
+                    t = _strip_cast(take)
+                    if take.is_const():
+                        shape = {"k": "static", "n": take.cval()}
+                    elif t.op == "div" and t.args[1].key() == e.size.key():
+                        v = t.args[0]
+                        if _has_sym(v, "len#") and not _has_sym(v, "rd#"):
+                            shape = {"k": "rest", "elem_bytes": None}
+                        else:
+                            self.role(v, ("size", name, 0))
+                            shape = {"k": "size", "f": name, "v": v, "elem_bytes": None}
+                    else:
+                        self.role(take, ("count", name, 0))
+                        shape = {"k": "count", "f": name, "v": take}
+                it = {"k": "array", "name": name, "elem": self.elem_of(list(walk(e.body))), "shape": shape,
+                      "pad": pending_pad, "elemsize": True, "line": e.line,
+                      "trailing_check": any(x.kind == "and_then_check" for x in walk(e.body))}
+                pending_pad = None
+                self.items.append(it)
+            elif k == "nested":
+                name = nxt_binds[0].name if nxt_binds else None
+                self.items.append({"k": "typedef", "name": name, "type": e.ty, "tk": "struct", "mode": e.mode, "line": e.line})
+            elif k in ("opt_region", "cond_region"):
+                body = list(walk(e.body))
+                if any(x.kind in ("read", "nested") for x in body):
+                    name = nxt_binds[0].name if nxt_binds else None
+                    c = e.cond
+                    flag = None
+                    if c.op == "eq" and isinstance(c.args[0], E) and isinstance(c.args[1], E):
+                        a, b = c.args
+                        if a.is_const():
+                            a, b = b, a
+                        if b.is_const():
+                            flag = (a, b.cval())
+                            self.role(a, ("flag", name, b.cval()))
+                    inner = self.elem_of(body)
+                    self.items.append({"k": "optional", "name": name, "flag": flag, "inner": inner, "line": e.line,
+                                       "guarded": any(x.kind == "check" for x in body)})
+                    # reads inside belong to the optional, not to chunks
+                    for x in body:
+                        if x.kind == "read":
+                            self.chunks.pop(x.sym.key(), None)
+                elif k == "cond_region":
+                    self.scan(e.body, pending_pad)
+            elif k == "skip" and e.n.is_const() and e.out == e.span and not any(
+                    x.kind in ("to_vec", "slice_to") for x in evs[max(0, i - 3):i]):
+                it = {"k": "chunk", "n": e.n.cval(), "order": None, "sym": None, "line": e.line, "uses": [], "skipped": True}
+                self.items.append(it)
+            elif k == "slice_to":
+                # payload = span[..n].to_vec()
+                n = e.n
+                self.items.append(self.payload_item(n, e))
+            elif k == "to_vec" and not any(x.kind == "slice_to" for x in evs[max(0, i - 1):i]):
+                self.items.append(self.payload_item(e.n, e))
+            i += 1
+        return
+
+    def payload_item(self, n, e):
+        rem = getattr(e, "rem", None)
+        if rem is not None:
+            d = sym.p_add(self.env.poly(rem), self.env.poly(n), -1)
+            if list(d.keys()) in ([()], []):
+                # everything but a constant tail
+                return {"k": "payload", "shape": {"k": "rest", "tail": int(d.get((), 0))}, "line": e.line}
+        c = _strip_cast(n)
+        mod = 0
+        v = c
+        if c.op == "sub" and c.args[1].is_const():
+            mod = c.args[1].cval()
+            v = c.args[0]
+        if _has_sym(v, "rd#") and not _has_sym(v, "len#"):
+            self.role(v, ("size", "_payload_", mod))
+            return {"k": "payload", "shape": {"k": "size", "mod": mod, "v": v}, "line": e.line}
+        return {"k": "payload", "shape": {"k": "unknown", "n": n.key()}, "line": e.line}
+
+    def array_name(self, prev_binds, nxt_binds):
+        for b in reversed(prev_binds):
+            if isinstance(b.val, VecV):
+                return b.name
+        for b in nxt_binds:
+            if isinstance(b.val, (VecV, ResV)) or True:
+                return b.name
+        return None
+
+    def use(self, name, e, kind="var", **kw):
+        bits = sym._bits_of(e, self.env, 64, structural=True)   # every wire bit that takes part counts
+        for j, b in enumerate(bits):
+            if isinstance(b, tuple) and len(b) == 2 and isinstance(b[0], str) and b[0] in self.chunks:
+                self.chunks[b[0]]["uses"].append({"name": name, "kind": kind, "j": j, "i": b[1], "e": e, **kw})
+
+    def finish(self):
+        # result fields -> names of integer / enum fields by value identity
+        by_key = {}
+        for fname, v in self.result_fields.items():
+            if isinstance(v, IntV):
+                by_key[v.e.key()] = fname
+            elif isinstance(v, ObjV) and isinstance(v.src, E):
+                by_key[v.src.key()] = fname
+        for it in self.items:
+            if it["k"] != "chunk":
+                continue
+            bits = [("ignored",)] * (it["n"] * 8)
+            for u in it["uses"]:
+                i = u["i"]
+                if i >= len(bits):
+                    continue
+                e = u["e"]
+                kind = u["kind"]
+                role = self.roles.get(e.key()) or self.roles.get(_strip_cast(e).key())
+                if kind == "fixed":
+                    v = u.get("value")
+                    d = ("fixed", (v >> u["j"]) & 1 if v is not None else None)
+                elif role is not None:
+                    d = role + (u["j"],)
+                elif e.key() in by_key:
+                    d = ("f", by_key[e.key()], u["j"])
+                elif kind in ("enum", "custom") and u["name"] in self.result_fields:
+                    d = ("f", u["name"], u["j"])
+                elif u["name"] in self.result_fields:
+                    d = ("f", u["name"], u["j"])
+                elif e.key() in self.chunks and u["name"] not in self.result_fields:
+                    continue        # `let chunk = read` alias: not a use of the bits
+                else:
+                    d = ("var", u["name"], u["j"])
+                # a later, more specific use wins over a plain variable binding
+                cur = bits[i]
+                if cur == ("ignored",) or cur[0] == "var" or (cur[0] == "f" and d[0] not in ("var", "f")):
+                    bits[i] = d
+            if it.get("skipped"):
+                bits = [("ignored",)] * (it["n"] * 8)
+            it["bits"] = bits
